@@ -287,6 +287,16 @@ def gen_conc_scenarios(seed, n, kinds=None):
                 if r.random() < 0.5:
                     burst[c].append(L(c, "JOIN #r"))
             burst[9] = [L(9, "NICK " + r.choice(["same", "zed2"]))] if r.random() < 0.5 else [L(9, "LUSERS")]
+        elif kind == "flood":
+            # one sender pipelines many messages: the receiver's queue builds a backlog
+            setup += reg(1, "src") + reg(2, "dst") + reg(3, "oth")
+            n = r.choice([40, 60, 90])
+            chans = ["#f%d" % i for i in range(20)]
+            setup += [L(2, "JOIN " + ",".join(chans[:10])), L(2, "JOIN " + ",".join(chans[10:]))]
+            burst[1] = [L(1, "PRIVMSG dst :m%03d" % j) for j in range(n)]
+            if r.random() < 0.5:
+                burst[1].append(L(1, "PRIVMSG " + ",".join(chans) + " :multi"))
+            burst[3] = [L(3, "PRIVMSG dst :from other")]
         elif kind == "joinrace":
             k = r.choice([2, 3])
             for c in range(1, k + 1):
@@ -371,11 +381,11 @@ def parse_conc_impl(text):
     return res
 
 
-def run_conc(tier, seed, log, kinds=None):
+def run_conc(tier, seed, log, kinds=None, n_override=None):
     from . import canon
     os.makedirs(runner.WORK, exist_ok=True)
     r = random.Random(seed)
-    n = 24 if tier == "quick" else 400
+    n = n_override or (24 if tier == "quick" else 400)
     scenarios = gen_conc_scenarios(seed, n, kinds)
     violations = []
     n_inter = 0
@@ -681,6 +691,10 @@ def run(pid, tier, seed, log):
                                    "the lock/await structure of a handler (or the gate/dispatch table) differs from the one the atomic sections of Irc/Conc.lean were written from")
         out["coverage"]["lock_map"] = info
         out["violations"] += viol
+    if pid == "C01":
+        # delivery layer under backlog: real server, pipelined floods; every copy must arrive exactly once
+        out = run_conc(tier, seed, log, kinds=["flood"], n_override=(4 if tier == "quick" else 40))
+        out["coverage"] = {"conc_" + k: v for k, v in out["coverage"].items() if k not in ("rule",)}
     if pid == "C02":
         # registration races: real server, simultaneous claims to one nickname
         out = run_conc(tier, seed, log, kinds=["nickrace"])
